@@ -35,9 +35,18 @@ def opaque_calls(prog, s):
     return out
 
 
+def message_carrier(ty):
+    """a delivered / published message, a reference to one, or a collection of them -- but not a wire message"""
+    return ("::PulledMessage" in ty or "::TopicMessage" in ty) and "pubsub_proto" not in ty and "PushPayload" not in ty
+
+
 def provenance_check(prog, out, sl, label, bid, bb, field, op, required, note_only=False):
     bi = prog.info(bid)
-    s = sl.of(bid, op)
+    # the mapping starts at the message that was pulled: how the handler got hold of it (which handle, which manager lookup)
+    # is not content of the delivery
+    from slicing import Slicer
+    s = Slicer(prog, stop_at=message_carrier).of(bid, op)
+    s.roots = {r for r in s.roots if r[0] != "source"}
     # the mapping function's own parameters are its inputs: what matters is which fields are read from them
     own_params = {r for r in s.roots if r[0] == "param" and r[1] == bid}
     if own_params and not opaque_calls(prog, s):
